@@ -489,7 +489,8 @@ YR_API int yr_scanner_scan_mem_blocks(
   scanner->iterator = iterator;
   rules = scanner->rules;
 
-  if (iterator->last_error == ERROR_BLOCK_NOT_READY)
+  if (iterator->last_error == ERROR_BLOCK_NOT_READY &&
+      scanner->matches_notebook != NULL)
   {
     // The caller is invoking yr_scanner_scan_mem_blocks again because the
     // previous call returned ERROR_BLOCK_NOT_READY.
